@@ -220,8 +220,8 @@ impl Walker {
 					}
 				}
 				// named bit list: trailing zero bits must be removed
-				let nbits = data.len() * 8 - unused.min(7) as usize;
-				if nbits > 0 {
+				let nbits = (data.len() * 8).saturating_sub(unused.min(7) as usize);
+				if nbits > 0 && !data.is_empty() {
 					let last = nbits - 1;
 					if data[last / 8] & (0x80 >> (last % 8)) == 0 {
 						self.r.issues.push(format!("{}: named-bit BIT STRING has trailing zero bit(s)", path));
